@@ -48,8 +48,11 @@ func (o regOp) String() string {
 	switch o.Kind {
 	case "regnode":
 		s := fmt.Sprintf("RegisterNode(%q,%s", o.ID, kindName(el.NodeType(o.NodeKind)))
-		if o.Wrap > 0 {
+		if o.Wrap > 0 && o.Wrap < 3 {
 			s += fmt.Sprintf(",wrapped x%d", o.Wrap)
+		}
+		if o.Wrap == 3 {
+			s += ",by-value node of a non-comparable type"
 		}
 		if o.Policy != "" {
 			s += "," + o.Policy
@@ -188,10 +191,13 @@ func (w *regWorld) apply(op regOp) (ms []mismatch, failed bool) {
 			opts = append(opts, fo...)
 		}
 		var reg el.Node = obj
-		for i := 0; i < op.Wrap; i++ {
+		for i := 0; i < op.Wrap && op.Wrap < 3; i++ {
 			wn := &wrapNode{inner: reg} // the Broker must reach Close through Unwrap
 			reg = wn
 			w.wrapOf[obj] = wn
+		}
+		if op.Wrap == 3 {
+			reg = valueNode{inner: reg, tags: []string{"not", "comparable"}} // a by-value node of a non-comparable type
 		}
 		err := w.broker.RegisterNode(el.NodeID(op.ID), reg, opts...)
 		if err == nil {
@@ -670,7 +676,7 @@ func runRegistrySeqOps(rc *RunCtx, prop string, fixed []regOp) {
 				o.CloseErr = true
 			}
 			if (prop == "C06" || prop == "C20") && tp.Choose(4, "wrap") == 0 {
-				o.Wrap = 1 + tp.Choose(2, "wraplevels")
+				o.Wrap = 1 + tp.Choose(3, "wraplevels") // 3: a by-value node of a non-comparable type
 			}
 			if (prop == "C07" || prop == "C05") && tp.Choose(4, "sameobj") == 0 {
 				o.SameObj = true
